@@ -30,15 +30,14 @@ func (q *Quarantine) Unmap(b []byte, label string) error {
 		return nil
 	}
 	full := b[:cap(b)]
-	if err := syscall.Mprotect(full, syscall.PROT_NONE); err != nil {
-		return err
-	}
 	start := uintptr(unsafe.Pointer(&full[:1][0]))
+	// register first: another goroutine may fault on the region the instant
+	// it becomes inaccessible
 	q.mu.Lock()
 	q.regions = append(q.regions, qregion{b: full, start: start, end: start + uintptr(len(full)), Label: label})
 	q.Unmaps++
 	q.mu.Unlock()
-	return nil
+	return syscall.Mprotect(full, syscall.PROT_NONE)
 }
 
 // Find reports whether addr lies in a quarantined region.
